@@ -406,6 +406,7 @@ async fn run_cycle(dir: &Path, scratch: &Path, rng: &mut Rng, sum: &mut Summary,
     let mut nwrites = 0u64;
     while i < plan.nops {
         let kind = plan.kind(rng, i);
+        if kind == 10 && plan.pause_ck { tokio::time::sleep(std::time::Duration::from_millis(1100)).await; }
         {
             let mut g = COLL.lock().unwrap(); let c = g.as_mut().unwrap();
             c.op = i; c.a = 0; c.b = 0;
@@ -453,6 +454,8 @@ async fn run_cycle(dir: &Path, scratch: &Path, rng: &mut Rng, sum: &mut Summary,
 
 struct Plan {
     nops: usize, nkeys: u64, trunc: bool, all_trunc: bool,
+    /// wait for the wall clock to reach a new second before every checkpoint (snapshot names are per second)
+    pause_ck: bool,
     kinds: Box<dyn Fn(&mut Rng, usize) -> u64>,
     rec: Box<dyn Fn(usize, u64) -> bool>,
     next_pick: Option<fn(&[Point]) -> usize>,
@@ -482,7 +485,7 @@ async fn mode_c06(args: &Args, sum: &mut Summary) {
     let mut wbig = CaseWriter::new(&args.out, "cases_c06_rot", HEADER, "c06_case", "check_c06", "prop_c06", 1);
     let thorough = args.thorough();
     let nsmall = if thorough { 120 } else { 30 };
-    let nbig = if thorough { 6 } else { 1 };
+    let nbig = if thorough { 8 } else { 2 };
     let mut id = 0u64;
     let mut seen = std::collections::HashSet::new();
     for h in 0..(nsmall + nbig) {
@@ -498,16 +501,19 @@ async fn mode_c06(args: &Args, sum: &mut Summary) {
             let plan = if big {
                 // force rotation: > MAX_WAL_ENTRIES writes (two rotations inside one second in variant 1),
                 // then a checkpoint, a few more writes; probes only around the interesting steps
-                let variant = (h - nsmall) % 3;
+                // variant 3 (the second rotation history of the quick tier): a rotation, then FIVE checkpoints in five different
+                // wall-clock seconds with writes in between, so that snapshot retention and log clean-up really delete something
+                let variant = match (h - nsmall) % 4 { 1 => 3, 3 => 1, v => v };
                 let n = match (variant, cyc) { (1, 0) => 2070, (_, 0) => 1040, _ => 8 };
-                Plan { nops: n + 4, nkeys: 24, trunc: true, all_trunc: false,
-                    kinds: Box::new(move |rng, i| if i == n { 10 } else if i == n + 2 && variant == 2 { 10 } else { match rng.below(10) { 0..=7 => 0, 8 => 6, _ => 8 } }),
+                let slow = variant == 3 && cyc == 0;
+                Plan { nops: if slow { n + 13 } else { n + 4 }, nkeys: 24, trunc: true, all_trunc: false, pause_ck: slow,
+                    kinds: Box::new(move |rng, i| if i == n { 10 } else if slow && i > n && (i - n) % 3 == 0 { 10 } else if i == n + 2 && variant == 2 { 10 } else { match rng.below(10) { 0..=7 => 0, 8 => 6, _ => 8 } }),
                     rec: Box::new(move |i, nw| i < 2 || (nw % 1000 >= 998 || nw % 1000 <= 1) || i >= n), next_pick: Some(|p| p.len() - 1) }
             } else {
                 let n = r.range(1, 14) as usize;
                 let all_trunc = thorough && r.chance(1, 5);
                 let ck = r.below(4);
-                Plan { nops: n, nkeys: r.range(2, 6), trunc: true, all_trunc,
+                Plan { nops: n, nkeys: r.range(2, 6), trunc: true, all_trunc, pause_ck: false,
                     kinds: Box::new(move |rng, _| match rng.below(16) { 0..=7 => rng.below(6), 8..=10 => 6, 11..=12 => 8, 13 => 9, _ => if ck > 0 { 10 } else { 0 } }),
                     rec: Box::new(|_, _| true), next_pick: None }
             };
